@@ -656,6 +656,10 @@ def rule_refspec_reads(run):
             run.ob(ok, "_visit_referenced_objects", file=rp.rel, line=c.lineno, detail=a + ".writeback", expected=f"{a} = operation({a}, ..)", found=src(st)[:80])
     if n < 3:
         raise AnalysisError("_visit_referenced_objects: ref-spec operands not recognised")
+    # EVERY entry of the reference spec is examined (a two-level reference carries a run-time index in its first entry)
+    loops = [l for l in walk_local(f.node) if isinstance(l, ast.For) and src(l.iter).endswith("._ref_spec")]
+    inside = bool(loops) and all(any(x is c for x in ast.walk(loops[0])) for c in calls if (dotted(c.args[0]) or "").startswith(rv + "."))
+    run.ob(inside, "_visit_referenced_objects", file=rp.rel, line=f.node.lineno, detail="all-entries", expected="for ref in obj._ref_spec: ... (all entries, not only the last)", found="ok" if inside else "no loop over the whole reference spec")
     last = f.node.body[-1]
     ok = isinstance(last, ast.Return) and src(last.value) == f"operation({f.node.args.args[0].arg}, {f.node.args.args[1].arg})"
     run.ob(ok, "_visit_referenced_objects", file=rp.rel, line=last.lineno, detail="object-itself", expected="return operation(obj, access) with the caller's flag", found=src(last)[:80])
@@ -667,7 +671,12 @@ def rule_names(run):
     c06.rule_names(run)           # a generated temporary may not take the (case-insensitive) name of a user object it would hide
 
 
-RULES = [rule_fdef, rule_leaf, rule_order, rule_state_check, rule_arms, rule_cleanup, rule_writeback, rule_state_root, rule_refspec_reads, rule_names]
+def rule_assignment_siblings(run):
+    from ..rules import roles as _roles
+    _roles.run_assignment_siblings_rule(run, "F-ROLE.siblings")
+
+
+RULES = [rule_fdef, rule_leaf, rule_order, rule_state_check, rule_arms, rule_cleanup, rule_writeback, rule_state_root, rule_refspec_reads, rule_names, rule_assignment_siblings]
 
 LEVEL = "other"
 EXPLANATION = (
